@@ -103,8 +103,15 @@ class PandasHypothesisBackend(PandasCheckBackend):
         elif is_table(check_obj) and key is not None:
             return self.preprocess_table_with_key(check_obj, key)
         else:
-            self.check.groups = self.check.samples  # type: ignore[attr-defined]
-            return super().preprocess(check_obj, key)
+            if self.check.groupby is None:
+                return super().preprocess(check_obj, key)
+            # the samples are the groups of a grouped field; they are passed
+            # on here instead of being written to the (shared) check object
+            return self._drop_group_nulls(
+                self._format_groupby_input(
+                    self.groupby(check_obj), self.check.samples  # type: ignore[attr-defined]
+                )
+            )
 
     def preprocess_table_with_key(
         self,
